@@ -46,3 +46,47 @@ Proof.
   - apply indices_xfast_length.
   - intros i Hr. apply nth_ravel_xfast. exact Hr.
 Qed.
+
+(* ---- the by-cell case: an accepted observation of Mesh(region, cell=c).n is the model's count,
+   hence (C01_by_cell_constructor_sound) the rounded edge/cell ratio, and every edge is a whole
+   number of OBSERVED cells up to the documented tolerance ---- *)
+From DF Require Import C07_accept C01_bycell.
+
+Lemma check_bycell_sound ex p1 p2 c tf_ k :
+  check_C01 (CByCell ex p1 p2 c tf_ (Some k)) = true ->
+  exists r m, mk_region p1 p2 None None tf_ = OK r /\ mesh_by_cell r c = OK m /\ n m = k.
+Proof.
+  cbn [check_C01]. destruct (mk_region p1 p2 None None tf_) as [r|e]; [|discriminate].
+  destruct (mesh_by_cell r c) as [m|e] eqn:Em; [|discriminate].
+  intro H. exists r, m. split; [reflexivity|]. split; [exact Em|].
+  apply zlist_eqb_sound_gen. exact H.
+Qed.
+
+Lemma check_bycell_reject_sound ex p1 p2 c tf_ :
+  check_C01 (CByCell ex p1 p2 c tf_ None) = true ->
+  exists r e, mk_region p1 p2 None None tf_ = OK r /\ mesh_by_cell r c = Err e.
+Proof.
+  cbn [check_C01]. destruct (mk_region p1 p2 None None tf_) as [r|e]; [|discriminate].
+  destruct (mesh_by_cell r c) as [m|e] eqn:Em; [discriminate|].
+  intros _. exists r, e. split; [reflexivity | exact Em].
+Qed.
+
+Theorem accepted_by_cell_counts ex p1 p2 c tf_ k :
+  check_C01 (CByCell ex p1 p2 c tf_ (Some k)) = true -> 0 <= tf_ -> (length p1 <= 10)%nat ->
+  exists r, mk_region p1 p2 None None tf_ = OK r /\ wf_region r /\
+    length c = ndim r /\ length k = ndim r /\
+    forall a, (a < ndim r)%nat ->
+      0 < nth a c 0 /\
+      nth a k 0%Z = Qround_half_even ((nth a (pmax r) 0 - nth a (pmin r) 0) / nth a c 0) /\
+      Qabs ((nth a (pmax r) 0 - nth a (pmin r) 0) - inject_Z (nth a k 0%Z) * nth a c 0) <= bycell_tol c.
+Proof.
+  intros H Htf Hnd. destruct (check_bycell_sound _ _ _ _ _ _ H) as (r & m & Hr & Hm & Hk).
+  assert (W : wf_region r) by (eapply mk_region_wf; eauto).
+  destruct (mesh_by_cell_sound r c m W Hm) as (_ & Hc & Hn & Hax).
+  exists r. split; [exact Hr|]. split; [exact W|]. subst k.
+  split; [exact Hc|]. split; [exact Hn|]. exact Hax.
+Qed.
+
+Example accepted_by_cell_instance :
+  check_C01 (CByCell true [0; 0] [4; 3] [1 # 2; 1] (1 # 1000000000000) (Some [8; 3]%Z)) = true.
+Proof. vm_compute. reflexivity. Qed.
